@@ -520,6 +520,25 @@ def _mesh(case):
             if not mirror:
                 raise Violation("not-mirrored", f"{a} has a session to {b} ({p!r}) but {b} has no matching session back: {base[b]!r}"[:900], det)
             labels.append("mirrored-session")
+    # one executor serving all devices of the topology one after another (both directions of the device list): what a device gets
+    # does not depend on which devices the executor served before
+    from annet.mesh import MeshExecutor
+    for names in (list(topo["names"]), list(reversed(topo["names"]))):
+        devs, sto = build_storage(topo)
+        ex = MeshExecutor(make_registry(specs, list(range(n))), sto)
+        for name in names:
+            try:
+                got = [got_peer(p) for p in ex.execute_for(devs[name]).peers]
+            except ValueError as e:
+                got = ("ValueError", str(e)[:160])
+            except Exception as e:
+                raise Violation("unexpected-exception", f"execute_for({name}) on a reused executor raised {type(e).__name__}: {e}"[:400],
+                                {"specs": specs, "links": topo["links"], "exc": type(e).__name__})
+            if _norm(got) != _norm(base[name]):
+                raise Violation("depends-on-devices-served-before", f"device {name}: an executor that served {names[:names.index(name)]!r} before "
+                                f"gives {got!r}, a new executor {base[name]!r}"[:900], det)
+    if len(topo["names"]) >= 3:
+        labels.append("reused-executor-3+devices")
     # registration order
     perms = list(itertools.permutations(range(n)))[:24]
     for perm in perms[1:]:
@@ -632,11 +651,99 @@ def _merge_case(case):
     return labels
 
 
+def enumerate_cases(tier, shard, nshards):
+    """every shipped mesh data model: a field DECLARED (anywhere in its annotation, e.g. inside Optional[...]) as a concatenated list
+    or a united set must be combined that way when two handlers set it"""
+    if shard == 0:
+        yield {"enum": True, "kind": "declared-mergers"}
+
+
+def _find_merger(hint):
+    """the Merger instance written in the annotation, however it is wrapped"""
+    import typing
+    from annet.mesh.basemodel import Merger
+    for m in getattr(hint, "__metadata__", ()):
+        if isinstance(m, Merger):
+            return m
+    for a in typing.get_args(hint):
+        if a is type(None) or not hasattr(a, "__class__"):
+            continue
+        try:
+            got = _find_merger(a)
+        except Exception:
+            got = None
+        if got is not None and (typing.get_origin(hint) is typing.Union or getattr(hint, "__metadata__", None) is not None):
+            return got
+    return None
+
+
+def _plain_elems(hint):
+    """the annotated container holds plain words (tuple[str, ...], set[<literal names>]) - a value can be written down here"""
+    import typing
+    o = typing.get_origin(hint)
+    if o is tuple:
+        return typing.get_args(hint)[:1] == (str,)
+    if o in (set, frozenset):
+        return True
+    return any(_plain_elems(a) for a in typing.get_args(hint) if a is not type(None) and typing.get_origin(a) is not None)
+
+
+def _declared_mergers(case):
+    import inspect
+    import typing
+    import annet.mesh.device_models as DM
+    import annet.mesh.peer_models as PM
+    from annet.mesh.basemodel import BaseMeshModel, Concat, Unite, merge
+    labels = ["declared-mergers"]
+    n = 0
+    for mod in (DM, PM):
+        for cname, cls in inspect.getmembers(mod, inspect.isclass):
+            if not (issubclass(cls, BaseMeshModel) and cls is not BaseMeshModel and cls.__module__ == mod.__name__):
+                continue
+            hints = typing.get_type_hints(cls, include_extras=True)
+            for field, hint in sorted(hints.items()):
+                m = _find_merger(hint)
+                if isinstance(m, Concat):
+                    x, y = ("65000:1",), ("65000:2",)
+                    want = x + y
+                elif isinstance(m, Unite):
+                    x, y = {"ipv4_unicast"}, {"ipv6_unicast"}
+                    want = x | y
+                else:
+                    continue
+                det = {"model": cname, "field": field, "declared": type(m).__name__}
+                if not _plain_elems(hint):
+                    labels.append("field-skipped")      # (elements are model objects: not constructed here)
+                    continue
+                req = {pn: "x" for pn, pp in inspect.signature(cls.__init__).parameters.items()
+                       if pn != "self" and pp.default is inspect.Parameter.empty and pp.kind is inspect.Parameter.POSITIONAL_OR_KEYWORD}
+                try:
+                    a, b = cls(**dict(req, **{field: x})), cls(**dict(req, **{field: y}))
+                except Exception as e:
+                    raise Violation("declared-merger", f"{cname}.{field} (declared {type(m).__name__}()) does not accept the value {x!r}: "
+                                    f"{type(e).__name__}: {e}"[:500], det)
+                try:
+                    got = getattr(merge(a, b), field)
+                except Exception as e:
+                    raise Violation("declared-merger", f"{cname}.{field} is declared {type(m).__name__}() but merging two values raises "
+                                    f"{type(e).__name__}: {e}"[:500], det)
+                if got != want:
+                    raise Violation("declared-merger", f"{cname}.{field} is declared {type(m).__name__}(): merge({x!r}, {y!r}) gives {got!r}, "
+                                    f"expected {want!r}", det)
+                n += 1
+    labels.append("n:declared-fields:%d" % n)
+    if n < 6:
+        raise RuntimeError("declared-mergers: only %d fields found - the model modules have moved?" % n)
+    return labels
+
+
 def check(case):
     import logging
     logging.disable(logging.CRITICAL)
     if case["kind"] == "mesh":
         return _mesh(case)
+    if case["kind"] == "declared-mergers":
+        return _declared_mergers(case)
     return _merge_case(case)
 
 
